@@ -29,7 +29,7 @@ func genC10(r *core.Rand, run int) *MuxScenario {
 	sc.Knobs.UnaryInt = r.Chance(1, 2) // the interceptors are scheduling points around the forwarders
 	sc.Knobs.StreamInt = r.Chance(1, 2)
 	sc.Local = []string{"larking.testpb.ChatRoom"} // TestService is only served by the backend
-	sc.Backends = []BackendSpec{{Tag: "b1", Services: []string{tsvc}, Verbose: run%2 == 1}}
+	sc.Backends = []BackendSpec{{Tag: "b1", Services: []string{tsvc}, Verbose: run%2 == 1, DepsFirst: run%4 == 3}}
 	k := 1
 	if r.Chance(1, 3) {
 		k = 2 + r.Intn(2)
